@@ -103,9 +103,28 @@ func c08Case(ev *vlib.Evidence, driver string, idx int, allowHang bool) {
 		}
 	}
 	if len(infos) > 0 {
+		// some already-peered hosts last checked in a while ago (still inside the window)
+		for _, h := range hosts {
+			if h.peered && h.fresh && r.Intn(2) == 0 {
+				n, _ := w.RawStore.GetNode(store.NodeID(h.id.NodeID))
+				nn := *n
+				nn.LastSeen = time.Now().Add(-vlib.Pick(r, 70*time.Second, 90*time.Second, 105*time.Second))
+				w.RawStore.SetNode(nn)
+				trace = append(trace, fmt.Sprintf("host%s last seen %s ago when reported", h.id.Name[7:], time.Since(nn.LastSeen).Round(time.Second)))
+			}
+		}
 		if _, err := w.Update(rc.AgentSide, requester, infos, 1); err != nil {
 			ev.Violate("setup:update-failed", map[string]interface{}{"err": err.Error()})
 			return
+		}
+		// the requester may reconnect before asking for more peers
+		if r.Intn(2) == 0 {
+			var resp pool.ConnectResponse
+			if err := w.Signed(rc.AgentSide, requester, requester.NodeID, "vipnode_connect", &resp, vlib.ConnectReq(reqIsHost, reqKind, "", "")); err != nil {
+				ev.Violate("setup:reconnect-failed", map[string]interface{}{"err": err.Error()})
+				return
+			}
+			trace = append(trace, "requester reconnects")
 		}
 	}
 	// staleness and disconnection after registration
@@ -304,7 +323,7 @@ func TestC08(t *testing.T) {
 		"populations of 0..8 hosts with random kind, freshness (LastSeen injected 130 s..1 h old), connection state (closed => CloseRemote), already-peered flag and whitelist behaviour (ack, error, delayed ack, never answer); requester is a client or a host; signed vipnode_peer with Num in {-5,-1,0,1,2,3,supply-1,supply,supply+3} or legacy vipnode_client; MaxRequestHosts in {0,1,2,5}; oracle: every returned host is eligible and acknowledged vipnode_whitelist(requester) (logical stamp) before the reply, count <= min(requested,max), no hosts for <=0, error only if nothing acknowledged, exact count when every active host of the kind is eligible and acknowledges; non-trivial = at least one eligible host and a positive limit; distinct = distinct population+request descriptors")
 	ev.Assume("never-answering hosts cost the pool's constant 5 s timeout; those cases are a fixed share run in parallel")
 	for _, driver := range vlib.Drivers() {
-		n := vlib.Scale(300, 6000)
+		n := vlib.Scale(1500, 20000)
 		parallelCases(n, 16, func(i int) { c08Case(ev, driver, i, i%25 == 0) })
 	}
 	finish(t, ev)
